@@ -121,6 +121,7 @@ func run(c *fw.Ctx, idx int) {
 	}
 	defer func() { rig.Close() }()
 	holds := map[string]chan struct{}{}
+	holdsUnpin := map[string]chan struct{}{}
 	cids := make([]cid.Cid, nCids)
 	cidx := map[string]int{}
 	for i := range cids {
@@ -136,6 +137,10 @@ func run(c *fw.Ctx, idx int) {
 		defer fmu.Unlock()
 		if ch := holds[call.Cid.KeyString()]; ch != nil && call.Op == "pin" {
 			return sim.Decision{Hold: ch}
+		}
+		if ch := holdsUnpin[call.Cid.KeyString()]; ch != nil && call.Op == "unpin" {
+			delete(holdsUnpin, call.Cid.KeyString()) // the first unpin only
+			return sim.Decision{Hold: ch, Err: fmt.Errorf("ipfs model: scripted failure of the held unpin")}
 		}
 		if call.Op == "pin" && failPin[call.Cid.KeyString()] {
 			return sim.Decision{Err: fmt.Errorf("ipfs model: scripted pin failure")}
@@ -185,7 +190,7 @@ func run(c *fw.Ctx, idx int) {
 		case "local", "everywhere":
 			f.lastOp = r.Pick("none", "none", "pin-ok", "pin-failed")
 		case "absent":
-			f.lastOp = r.Pick("none", "none", "unpin-ok", "unpin-failed")
+			f.lastOp = r.Pick("none", "none", "unpin-ok", "unpin-failed", "realloc+untrack")
 		}
 		facts[i] = f
 		// build it
@@ -214,6 +219,40 @@ func run(c *fw.Ctx, idx int) {
 			rig.IPFS.SetPin(cids[i], f.daemon)
 			rig.T.Untrack(ctx, cids[i])
 			facts[i].daemon = ""
+		case "realloc+untrack":
+			// the item is re-allocated to another peer (the tracker's own unpin is held
+			// inside the daemon and then fails) and removed from the pinset meanwhile:
+			// a failed unpin of something that should not be pinned here
+			if f.daemon == "" {
+				f.daemon = "recursive"
+				facts[i].daemon = "recursive"
+			}
+			rig.IPFS.SetPin(cids[i], f.daemon)
+			ch := make(chan struct{})
+			fmu.Lock()
+			holdsUnpin[cids[i].KeyString()] = ch
+			failUnpin[cids[i].KeyString()] = true
+			fmu.Unlock()
+			rp := mkPin(i, fact{entry: "remote", mode: f.mode})
+			rig.Quiesce(ctx, 20*time.Second) // nothing else in flight: the held call is the re-allocation's unpin
+			rig.St.Add(ctx, rp)
+			done := make(chan struct{})
+			go func() { rig.T.Track(ctx, rp); close(done) }()
+			for w := 0; w < 5000; w++ {
+				fmu.Lock()
+				_, waiting := holdsUnpin[cids[i].KeyString()]
+				fmu.Unlock()
+				if !waiting {
+					break // the unpin of the re-allocation sits in the daemon
+				}
+				time.Sleep(time.Millisecond)
+			}
+			rig.St.Rm(ctx, cids[i])
+			rig.T.Untrack(ctx, cids[i])
+			close(ch)
+			<-done
+			facts[i].lastOp = "unpin-failed"
+			c.Cover("situation/realloc+untrack")
 		case "unpin-failed":
 			rig.IPFS.SetPin(cids[i], f.daemon)
 			fmu.Lock()
@@ -403,6 +442,15 @@ func run(c *fw.Ctx, idx int) {
 			}
 		}
 		c.Eval(fmt.Sprintf("filter/bits=%d/matches=%d", nbits, len(want)))
+		// "unpinned" and "absent from the listing" are the same fact for an item outside
+		// the pinset (a finished unpin is dropped from the table a moment after it is done)
+		for _, m := range []map[string]api.TrackerStatus{got, want} {
+			for k, s := range m {
+				if s == api.TrackerStatusUnpinned {
+					delete(m, k)
+				}
+			}
+		}
 		if fmtListing(got, cidx) != fmtListing(want, cidx) {
 			c.Violation("C06/filter/not-restriction-of-unfiltered/"+f.String(),
 				fmt.Sprintf("StatusAll(%s) = [%s]; unfiltered restricted to the filter = [%s]", f, fmtListing(got, cidx), fmtListing(want, cidx)), describe())
